@@ -711,7 +711,10 @@ fn enabled_c09(w: &RouterWorld, cfg: &Cfg, v: &mut Vec<(Act, u8)>) {
             }
         }
         if !w.manual {
-            v.push((Act::Bad { c: s, kind: 0 }, 0));
+            // an acknowledgement of each kind that the broker did not solicit
+            for kind in [0u8, 1, 2] {
+                v.push((Act::Bad { c: s, kind }, 0));
+            }
         }
         let stalled = cl.link.as_ref().is_some_and(|l| l.stalled);
         if cfg.variant == 2 {
@@ -750,6 +753,13 @@ fn enabled_c14(w: &RouterWorld, cfg: &Cfg, v: &mut Vec<(Act, u8)>) {
         if !w.manual {
             for &k in kinds {
                 v.push((Act::Bad { c: m, kind: k }, 0));
+            }
+            if cfg.variant == 0 {
+                // the packet that ends the connection is followed by more packets in its
+                // batch: they must not be acted on, under anybody's name
+                for kind in [2u8, 3, 8] {
+                    v.push((Act::Batch { c: m, kind }, 0));
+                }
             }
             v.push((Act::DiscPkt { c: m }, 0));
             v.push((Act::Drop { c: m }, 0));
